@@ -198,6 +198,12 @@ def check(model, rep):
     r = [n for n in walk_own(j.node) if isinstance(n, ast.Return)]
     ok = len(r) == 1 and src(r[0].value).replace(' ', '') == 'np.linalg.pinv(self.inverseJacobian(*args,**kwargs))'
     rep.ob('R11.4', j, 'jacobian = pinv(inverseJacobian(...)) with the same arguments', ok, 'Robot.jacobian is %s' % (src(r[0].value) if r else '?'))
+    from .common_ops import pinv_cutoff
+    for c in [c for fi_ in (j,) + tuple(sp.methods[m] for m in ('staticForces', 'staticForcesBody', 'carryMassCalc') if m in sp.methods)
+              for c in walk_own(fi_.node) if isinstance(c, ast.Call) and src(c.func).endswith('pinv')]:
+        cut = pinv_cutoff(c)
+        rep.ob('R11.4', j, 'pseudo-inverse without truncation: ' + src(c)[:60], cut is None,
+               'singular values below %s of the largest are discarded: near-singular but full-rank platforms get a wrong Jacobian' % cut, line=c.lineno)
     rep.ob('R11.4', sp.module.relpath, 'SP overrides inverseJacobian and not jacobian', 'inverseJacobian' in sp.methods and 'jacobian' not in sp.methods,
            'SP must define exactly one of jacobian / inverseJacobian (the other is derived by pseudo-inverse)', qualname='SP', line=0)
     from .c06 import check as _c06  # noqa: F401  (the statics table itself is decided under C06 R06.3)
